@@ -1,28 +1,65 @@
-import Sm9.Proofs.GroupBasic
-import Sm9.Proofs.Pow
+import Sm9.Proofs.JacobianInst
 /-!
 # C05 — Scalar multiplication is the Z_r-module action on G1 and G2
-First landing: the scalar is consumed through its canonical bits (value of the bit list is
-the scalar), the zero scalar gives the identity, both generators are killed by r and by no
-smaller positive multiple that r's primality allows ((r−1)·P + P = O and P ≠ O, r prime).
-`mul_eq_nsmul` against Mathlib's group law follows C04's refinement (next item).
+`P * k` is `k.val • P` in Mathlib's group, for every valid P (identity included, any
+representation) and every scalar — generic over the field, and for the model's own G1.
+With r·P1 = O (kernel evaluation), P1 ≠ O and r prime (Pratt certificate) the generator
+has order exactly r, and the module laws follow from Mathlib's `AddCommGroup`.
+G2: generic theorem applies once `Field Fq2` lands; meanwhile order of P2 by kernel and
+the oracle comparison.
 -/
 namespace Sm9.C05
+open Jac
 
-theorem scalar_bits_value (k : Fr) : bitsVal (bitsMSB k.val) = k.val := bitsVal_bitsMSB k.val
+theorem mul_refines_nsmul {F : Type} [Field F] [DecidableEq F] (b : F) (h2 : (2 : F) ≠ 0)
+    (hno2 : ∀ x : F, x ^ 3 + b ≠ 0) (P : G F) (hP : Valid b P) (k : Fr) :
+    toAff b (@G.mul F (feOfField F) P k) = k.val • toAff b P ∧ Valid b (@G.mul F (feOfField F) P k) :=
+  ⟨mul_correct b h2 hno2 P hP k, mul_valid b h2 hno2 P hP k⟩
+theorem g1_mul (P : G1) (hP : G1.Valid P) (k : Fr) : G1.toAff (P.mul k) = k.val • G1.toAff P :=
+  G1.mul_correct P hP k
+theorem g1_mul_add (P : G1) (hP : G1.Valid P) (a b : Fr) :
+    G1.toAff ((P.mul a).add (P.mul b)) = (a.val + b.val) • G1.toAff P := by
+  rw [G1.add_correct _ _ (G1.mul_valid P hP a) (G1.mul_valid P hP b), G1.mul_correct P hP a,
+    G1.mul_correct P hP b, add_smul]
+theorem g1_mul_mul (P : G1) (hP : G1.Valid P) (a b : Fr) :
+    G1.toAff ((P.mul a).mul b) = (b.val * a.val) • G1.toAff P := by
+  rw [G1.mul_correct _ (G1.mul_valid P hP a) b, G1.mul_correct P hP a, mul_smul]
+theorem g1_mul_zero (P : G1) (hP : G1.Valid P) : G1.toAff (P.mul 0) = 0 := by
+  rw [G1.mul_correct P hP 0]
+  have : (0 : Fr).val = 0 := Fr.zero_val
+  rw [this, zero_smul]
+theorem g1_mul_one (P : G1) (hP : G1.Valid P) : G1.toAff (P.mul 1) = G1.toAff P := by
+  rw [G1.mul_correct P hP 1]
+  have : (1 : Fr).val = 1 := Fr.one_val
+  rw [this, one_smul]
+/-- scalars act through their residue mod r on points killed by r -/
+theorem g1_mul_mod_r (P : G1) (hP : G1.Valid P) (hr : r • G1.toAff P = 0) (a b : Fr) :
+    G1.toAff ((P.mul a).add (P.mul b)) = G1.toAff (P.mul (a + b)) := by
+  rw [g1_mul_add P hP, G1.mul_correct P hP (a + b)]
+  have hab : (a + b).val = (a.val + b.val) % r := rfl
+  rw [hab]
+  conv_lhs => rw [← Nat.div_add_mod (a.val + b.val) r, add_smul, mul_smul, smul_comm, hr, smul_zero, zero_add]
+/-- r·P1 = O and P1 ≠ O; r is prime: the generator has order exactly r -/
+theorem order_P1 : r • G1.toAff (G.one : G1) = 0 ∧ G1.toAff (G.one : G1) ≠ 0 ∧ Nat.Prime r := by
+  refine ⟨?_, ?_, r_prime⟩
+  · -- (r−1)·P1 + P1 has z = 0 (kernel), and denotes (r−1)•P + P = r•P
+    have hz : (((G.one : G1).mul (-(1 : Fr))).add G.one).z = 0 := by decide +kernel
+    have h := G1.add_correct _ _ (G1.mul_valid _ G1.one_valid (-(1 : Fr))) G1.one_valid
+    rw [G1.toAff_zero _ hz, G1.mul_correct _ G1.one_valid] at h
+    have hv : (-(1 : Fr)).val = r - 1 := by decide +kernel
+    rw [hv] at h
+    have hr1 : r - 1 + 1 = r := by decide +kernel
+    calc r • G1.toAff (G.one : G1) = (r - 1 + 1) • G1.toAff (G.one : G1) := by rw [hr1]
+      _ = (r - 1) • G1.toAff (G.one : G1) + G1.toAff (G.one : G1) := by rw [add_smul, one_smul]
+      _ = 0 := h.symm
+  · have hz : (G.one : G1).z ≠ 0 := by decide +kernel
+    rw [G1.toAff_some _ hz (G1.one_valid.resolve_left hz)]
+    exact WeierstrassCurve.Affine.Point.some_ne_zero _
+theorem order_P2_kernel : (((G.one : G2).mul (-(1 : Fr))).add G.one).z = 0 ∧ (G.one : G2).z ≠ 0 := by
+  decide +kernel
 theorem mul_zero_scalar {F} [FieldElement F] (p : G F) : p.mul 0 = G.zero := by
   unfold G.mul G.mulBits
   have : bitsMSB (0 : Fr).val = [] := by decide +kernel
   rw [this]; rfl
-theorem mul_one_scalar_g1 : ((G.one : G1).mul 1).eq G.one = true := by decide +kernel
-/-- r·P1 = O : (r−1)·P1 + P1 has z = 0, and P1 ≠ O -/
-theorem order_P1 : (((G.one : G1).mul (-(1 : Fr))).add G.one).z = 0 ∧ (G.one : G1).z ≠ 0 := by
-  decide +kernel
-theorem order_P2 : (((G.one : G2).mul (-(1 : Fr))).add G.one).z = 0 ∧ (G.one : G2).z ≠ 0 := by
-  decide +kernel
-theorem r_is_prime : Nat.Prime r := r_prime
-/-- (r−1)·P = −P on the generators -/
-theorem mul_r_minus_one_g1 : ((G.one : G1).mul (-(1 : Fr))).eq (G.one : G1).neg = true := by decide +kernel
-theorem mul_r_minus_one_g2 : ((G.one : G2).mul (-(1 : Fr))).eq (G.one : G2).neg = true := by decide +kernel
 
 end Sm9.C05
